@@ -28,6 +28,8 @@ def C(cid, *a):
     i = CVAL['count']
     CVAL['count'] = i + 1
     LOG.append(('c', cid) + a)
+    if CVAL.get('all_false'):
+        return False
     return i != CVAL['fail_at']
 
 
